@@ -328,6 +328,12 @@ func (x *Exec) frameEnv(f *Frame, st *State, header *ssa.BasicBlock) *Env {
 			}
 		}
 		for v, val := range g.regs {
+			if phi, ok := v.(*ssa.Phi); ok && phi.Comment == "rangeindex" {
+				// the index of the range loop with ordinal k is also reachable as rangeindex_k (nested loops)
+				if k, isHdr := g.loops[phi.Block()]; isHdr {
+					env.vars[fmt.Sprintf("rangeindex_%d", k)] = val
+				}
+			}
 			if phi, ok := v.(*ssa.Phi); ok && phi.Comment != "" {
 				if g == f && header != nil && phi.Block() != header {
 					if _, exists := env.vars[phi.Comment]; exists {
